@@ -320,6 +320,9 @@ func RunEngineCtx(ctx context.Context, c *Case, st *mstore.Store, withQuery func
 	if c.QCancel {
 		st.Cancel = q.Cancel
 	}
+	if c.QClose {
+		st.Cancel = q.Close
+	}
 	for _, rs := range remoteStores {
 		rs.Cancel = st.Cancel
 	}
